@@ -882,6 +882,16 @@ impl BitBuffer {
     }
 }
 
+/// Verification hook: `HuffmanOxide::enforce_max_code_size` on a caller-supplied histogram.
+#[cfg(miniz_oxide_verif)]
+pub fn verif_enforce_max_code_size(
+    num_codes: &mut [i32],
+    code_list_len: usize,
+    max_code_size: usize,
+) {
+    HuffmanOxide::enforce_max_code_size(num_codes, code_list_len, max_code_size)
+}
+
 /// A struct containing data about huffman codes and symbol frequencies.
 ///
 /// NOTE: Only the literal/lengths have enough symbols to actually use
@@ -1146,7 +1156,11 @@ impl HuffmanOxide {
                 num_codes[symbol.key as usize] += 1;
             }
 
+            #[cfg(all(miniz_oxide_verif, feature = "std"))]
+            let verif_before = num_codes;
             Self::enforce_max_code_size(&mut num_codes, num_used_symbols, code_size_limit);
+            #[cfg(all(miniz_oxide_verif, feature = "std"))]
+            crate::verif_huff_trace::push(verif_before, num_codes, num_used_symbols, code_size_limit);
 
             self.code_sizes[table_num].fill(0);
             self.codes[table_num].fill(0);
